@@ -1550,7 +1550,17 @@ class DiameterMessage:
 
 
     def __setitem__(self, idx: int, value: DiameterAVP) -> None:
+        previous = self._avps[idx]
         self._avps[idx] = value
+
+        #: Keeps the attribute view and the Message Length field in sync 
+        #: with the list.
+        for key, item in self.__dict__.items():
+            if item is previous:
+                self.__dict__[key] = value
+                break
+
+        self.refresh()
 
 
     @property
@@ -1718,14 +1728,13 @@ class DiameterMessage:
 
         _avp_class = loader.get_avp_class(avp)
 
-        setattr(self, avp_name, _avp_class(avp_value))
-        self[index] = _avp_class(avp_value)
+        #: The attribute and the list must refer to the same object.
+        new_avp = _avp_class(avp_value)
+        new_avp.flags = avp.flags
+        new_avp.vendor_id = avp.vendor_id
 
-        new_avp_att = getattr(self, avp_name)
-        new_avp_arr = self[index]
-
-        new_avp_att.flags = new_avp_arr.flags = avp.flags
-        new_avp_att.vendor_id = new_avp_arr.vendor_id = avp.vendor_id
+        setattr(self, avp_name, new_avp)
+        self[index] = new_avp
 
 
 class DiameterRequest(DiameterMessage):
